@@ -48,7 +48,7 @@ fn main() {
     let mut rep = Report::new("C19", &cli);
     rep.note("rule", json!("case = random base box (magnitudes 1e-2..1e4, angle None/Some incl. k*pi/2 and |angle|>2pi). Per base: ltwh->universal->ltwh round trip; polygon vertices vs an f64 rotation of the axis-aligned rectangle (as a vertex set, plus shoelace area in the given order, centroid, max vertex radius vs area()/centre/get_radius()); equality: reflexive, and for EVERY field of BoundingBox (5) and Universal2DBox (5) x delta in {+-EPS/4, +-4EPS, +-1, +-100} x both argument orders: symmetric, equal iff the actual f32 difference < EPS; plus pairs differing in several coordinates at once (all below EPS => equal, any clearly above => unequal) (pairs whose actual difference is within 2% of EPS are skipped and counted); normalize_angle: result in [0, 2pi_f32] and congruent to the input modulo 2pi within rounding. Non-trivial: every base box (distinct by field bits)."));
     rep.note("assumptions", json!(["equality is judged on the difference actually representable in f32 after applying the delta (at |x|=1e4 a delta of EPS/4 is absorbed by rounding and the pair is then expected to be equal)"]));
-    let n = cli.cases(4000, 400_000);
+    let n = cli.cases(80_000, 800_000);
     let deltas: [f32; 8] = [EPS / 4.0, -EPS / 4.0, 4.0 * EPS, -4.0 * EPS, 1.0, -1.0, 100.0, -100.0];
     for idx in cli.index_range(n) {
         let mut rng = Rng::for_case(cli.seed, cli.shard, idx);
